@@ -7,6 +7,7 @@ method is mirrored to the decode side (encode -> decode, encode_of -> decode_of)
 method.  For every truth assignment of the configuration atoms: each delegation set a feasible decoder path can take must be one a feasible
 encoder path takes.  A decoder that, depending on the *document* (element tag, key), hands the same encoder output to a different child
 protocol is what the rule reports; decoder paths without delegation (absent value, unknown extension) are not constrained."""
+import ast
 import itertools
 import re
 
@@ -14,7 +15,38 @@ from . import flow, sem
 
 DELEG = re.compile(r'^([\w\.\[\]\'"\*]+?)\.(encode|decode|encode_of|decode_of|encode_content|decode_content)\(')
 SELF_CALL = re.compile(r'^self\.(\w+)\(')
+HELPER_CALL = re.compile(r'^(\w+)\(')
+_HELPERS = {}
+
+
+def _helper_delegations(mod, name):
+    """[(parameter index, codec method)] for a module-level function that calls <parameter>.encode / decode / ... on one of its parameters"""
+    key = (id(mod), name)
+    if key in _HELPERS and _HELPERS[key][0] is mod:
+        return _HELPERS[key][1]
+    out = []
+    try:
+        r = mod.resolve_name(name)
+    except Exception:
+        r = None
+    if isinstance(r, ast.FunctionDef):
+        ps = [a.arg for a in r.args.args]
+        for n in ast.walk(r):
+            if isinstance(n, ast.Call) and isinstance(n.func, ast.Attribute) and n.func.attr in MIRROR and isinstance(n.func.value, ast.Name) and n.func.value.id in ps:
+                out.append((ps.index(n.func.value.id), n.func.attr))
+    _HELPERS[key] = (mod, out)
+    return out
 MIRROR = {'encode': 'decode', 'encode_of': 'decode_of', 'decode': 'decode', 'decode_of': 'decode_of', 'encode_content': 'decode_content', 'decode_content': 'decode_content'}
+
+
+def norm_recv(text):
+    """receiver classes: a direct child attribute (self.inner, self.element_type, self._type) keeps its name; an element of one of the object's member
+    collections -- a loop variable, self.members[..], self.tag_to_member.get(..) -- is `member` (which collection it came from differs legitimately between the two sides:
+    by name when encoding, by tag or index when decoding)"""
+    t = re.sub(r'\s*@\s*\d+', '', text).strip()
+    if re.match(r'^self\.\w+$', t):
+        return t
+    return 'member'
 
 
 def _flat_events(events, depth=0):
@@ -31,6 +63,10 @@ def _flat_events(events, depth=0):
 def deleg_paths(cls, f, depth=0):
     """[(configuration literals, frozenset of (receiver, mirrored method))] per non-raising path, or None (too many paths)"""
     params = set(flow.param_names(f)[1:])
+    if depth > 0:
+        # in a helper of the object a parameter may be the child handed in (encode_member(self, member, data, ..)): only the parameters that carry the value or
+        # the stream are not children
+        params = {p_ for p_ in params if p_ in ('data', 'value', 'values', 'encoded', 'encoder', 'decoder', 'element', 'string', 'text', 'offset')}
     ps = sem.paths(f)
     if ps is None:
         return None
@@ -38,7 +74,7 @@ def deleg_paths(cls, f, depth=0):
     for p in ps:
         if p.outcome[0] == 'raise':
             continue
-        cfg = frozenset((c[0], c[1]) for c in p.conds if not (set(re.findall(r'[A-Za-z_]\w*', c[0])) & params))
+        cfg = frozenset((c[0], c[1]) for c in p.conds if not (set(re.findall(r'[A-Za-z_]\w*', c[0])) & set(flow.param_names(f)[1:])))
         ds = set()
         subs = [frozenset()]
         for ev in _flat_events(p.events):
@@ -46,6 +82,22 @@ def deleg_paths(cls, f, depth=0):
                 continue
             m = DELEG.match(ev[1])
             if not m:
+                # a module-level helper that is handed a child and calls the child's codec method (encode_located(member, ..), decode_located(member, ..))
+                mh = HELPER_CALL.match(ev[1])
+                if mh and getattr(f, '_mod', None) is not None:
+                    hd = _helper_delegations(f._mod, mh.group(1))
+                    if hd:
+                        try:
+                            ce = sem.parse_expr(ev[1])
+                        except SyntaxError:
+                            ce = None
+                        if isinstance(ce, ast.Call):
+                            for idx, meth_ in hd:
+                                if idx < len(ce.args):
+                                    recv_ = ast.unparse(ce.args[idx])
+                                    if recv_.split('.')[0].split('[')[0] not in params:
+                                        ds.add((norm_recv(recv_), MIRROR[meth_]))
+                        continue
                 ms = SELF_CALL.match(ev[1])
                 if ms and depth < 2 and ms.group(1) != f.name:
                     # a helper of the same object: its delegations are the caller's
@@ -56,7 +108,6 @@ def deleg_paths(cls, f, depth=0):
                             subs = list({s | d for s in subs for (_k, d) in sub})[:64]
                 continue
             recv, meth = m.group(1), m.group(2)
-            recv = re.sub(r'\[.*\]', '[*]', recv)
             if recv.split('.')[0].split('[')[0] in params or recv.startswith('super('):
                 continue
             if recv == 'self':
@@ -66,7 +117,7 @@ def deleg_paths(cls, f, depth=0):
                     if sub:
                         subs = list({s | d for s in subs for (_k, d) in sub})[:64]
                         continue
-            ds.add((recv, MIRROR[meth]))
+            ds.add((norm_recv(recv) if recv != 'self' else recv, MIRROR[meth]))
         for s_ in subs:
             out.append((cfg, frozenset(ds | s_)))
     return out
